@@ -18,8 +18,16 @@ use std::sync::Arc;
 use tokio::fs;
 use tracing::{debug, info, warn};
 
-/// Maximum archive size limit per CASC specification (256 GiB)
-const MAX_ARCHIVE_SIZE: u64 = 256 * 1024 * 1024 * 1024;
+/// Maximum size of one `data.NNN` archive: 1 GiB (0x40000000 bytes).
+///
+/// A local index entry addresses an object by a 10-bit archive id and a 30-bit
+/// offset inside that archive, so no object may start at or behind this limit.
+/// Storage grows by starting the next archive, not by growing one archive.
+const MAX_ARCHIVE_SIZE: u64 = crate::storage::segment::SEGMENT_SIZE;
+
+/// Number of archives one directory can hold: `data.000` to `data.999`, the
+/// names `open_all` recognises.
+const MAX_ARCHIVE_COUNT: u16 = 1000;
 
 /// Archive file manager for .data files
 pub struct ArchiveManager {
@@ -268,9 +276,6 @@ impl ArchiveManager {
         data: &[u8],
         mode: CompressionMode,
     ) -> Result<(u16, u32, u32, [u8; 16])> {
-        // Select archive with space
-        let archive_id = self.select_archive_for_write();
-
         // BLTE-encode the data (even uncompressed data gets a BLTE wrapper)
         let blte_data = Self::compress_blte_with_mode(data, mode)?;
 
@@ -285,17 +290,9 @@ impl ArchiveManager {
         let total_size = u32::try_from(LOCAL_HEADER_SIZE + blte_data.len())
             .map_err(|e| StorageError::Archive(format!("Total data too large: {e}")))?;
 
-        // Validate that adding this data won't exceed archive size limits
-        let current_size = {
-            let positions = self.write_positions.read();
-            *positions.get(&archive_id).unwrap_or(&0)
-        };
-
-        if current_size + u64::from(total_size) > MAX_ARCHIVE_SIZE {
-            return Err(StorageError::Archive(
-                "Adding data would exceed maximum archive size (256 GiB)".to_string(),
-            ));
-        }
+        // Select an archive the entry fits into completely; when the current
+        // one is full the next `data.NNN` is started.
+        let archive_id = self.select_archive_for_write(u64::from(total_size))?;
 
         // Get or create archive file
         if !self.archives.contains_key(&archive_id) {
@@ -330,27 +327,36 @@ impl ArchiveManager {
         Ok((archive_id, offset_u32, total_size, *encoding_key.as_bytes()))
     }
 
-    /// Select archive for writing with proper CASC size limits
-    fn select_archive_for_write(&self) -> u16 {
-        // Find archive with space under the 256 GiB CASC limit
+    /// Select the archive that receives an entry of `total_size` bytes.
+    ///
+    /// An entry must lie completely inside the first [`MAX_ARCHIVE_SIZE`] bytes
+    /// of its archive: the index stores 30 bits of offset, an entry that starts
+    /// behind that limit cannot be found again once the index is reloaded.
+    fn select_archive_for_write(&self, total_size: u64) -> Result<u16> {
+        if total_size > MAX_ARCHIVE_SIZE {
+            return Err(StorageError::Archive(format!(
+                "Entry of {total_size} bytes exceeds the maximum archive size ({MAX_ARCHIVE_SIZE} bytes)"
+            )));
+        }
+
         let positions = self.write_positions.read();
 
-        // Check existing archives for available space
+        // First existing archive with enough room left
         for (id, &pos) in positions.iter() {
-            // Use archives under 256 GiB limit with some buffer
-            if pos < MAX_ARCHIVE_SIZE - (100 * 1024 * 1024) {
-                // Leave 100MB buffer
-                return *id;
+            if pos <= MAX_ARCHIVE_SIZE - total_size {
+                return Ok(*id);
             }
         }
 
-        // Create new archive if all are at capacity
-        if positions.len() < usize::from(u16::MAX) {
-            u16::try_from(positions.len()).unwrap_or(u16::MAX)
-        } else {
-            // Fallback to archive 0 if we somehow hit the u16 limit
-            0
+        // All archives are full: start the one after the highest existing id
+        let next_id = positions.keys().next_back().map_or(0, |id| id + 1);
+        drop(positions);
+        if next_id >= MAX_ARCHIVE_COUNT {
+            return Err(StorageError::Archive(format!(
+                "All {MAX_ARCHIVE_COUNT} archives are full"
+            )));
         }
+        Ok(next_id)
     }
 
     /// Create a new archive file
@@ -1061,6 +1067,45 @@ mod tests {
                 assert_eq!(&read, expected);
             }
         }
+    }
+
+    #[tokio::test]
+    async fn test_full_archive_rolls_over_to_next_archive() {
+        let temp_dir = tempdir().expect("Failed to create temp dir");
+
+        // data.000 with room for exactly one 100-byte entry (30-byte local
+        // header + 9-byte BLTE frame + payload) below the 1 GiB limit. The
+        // file is sparse, it occupies no disk space.
+        let first = vec![0x11; 100];
+        let entry_size = (LOCAL_HEADER_SIZE + 9 + first.len()) as u64;
+        let start = MAX_ARCHIVE_SIZE - entry_size;
+        File::create(temp_dir.path().join("data.000"))
+            .expect("create data.000")
+            .set_len(start)
+            .expect("extend data.000");
+
+        let mut manager = ArchiveManager::new(temp_dir.path());
+        manager.open_all().await.expect("open_all");
+
+        // Fits exactly: last byte of the entry is the last addressable byte
+        let (id_a, off_a, size_a, _) = manager.write_content(&first, false).expect("write");
+        assert_eq!((id_a, u64::from(off_a)), (0, start));
+
+        // data.000 is full now: the next entry starts data.001 and its offset
+        // fits the 30-bit offset field of an index entry
+        let second = vec![0x22; 50];
+        let (id_b, off_b, size_b, _) = manager.write_content(&second, false).expect("write");
+        assert_eq!((id_b, off_b), (1, 0));
+        assert!(u64::from(off_b) + u64::from(size_b) <= MAX_ARCHIVE_SIZE);
+
+        assert_eq!(
+            manager.read_content(id_a, off_a, size_a).expect("read"),
+            first
+        );
+        assert_eq!(
+            manager.read_content(id_b, off_b, size_b).expect("read"),
+            second
+        );
     }
 
     #[test]
